@@ -133,6 +133,11 @@ def special_angles():
         base.add(k * math.pi / 3)
         base.add(k * math.pi)
     for v in list(base):
+        if abs(v) <= 8 * math.pi:
+            for d in (1e-3, 2e-5, 1e-7, 1e-9, 1e-12):
+                out.add(v + d)
+                out.add(v - d)
+    for v in list(base):
         out.add(v)
         out.add(float(np.nextafter(v, 0)))
         out.add(float(np.nextafter(v, math.inf)))
